@@ -835,6 +835,10 @@ func (ctx Ctx) callExpr(s *ast.CallExpr) coq.Expr {
 
 func (ctx Ctx) qualifiedName(obj types.Object) string {
 	name := obj.Name()
+	if obj.Pkg() == nil {
+		// universe scope (the type error)
+		return name
+	}
 	if ctx.pkgPath == obj.Pkg().Path() {
 		// no module name needed
 		return name
